@@ -37,8 +37,15 @@ def main():
         ))
         meta.pop('ran', None)
         json.dump(meta, open(os.path.join(dst, 'meta.json'), 'w'), indent=1)
+        conc, tie = [], []
+        for pid_ in flagged:
+            vl = r.get('checks', {}).get(pid_, {}).get('violations', [])
+            (tie if vl and all('no-failing-input-found' in v for v in vl) else conc).append(pid_)
+        meta_path = os.path.join(dst, 'meta.json')
+        m2 = json.load(open(meta_path)); m2['flagged_with_failing_input'] = conc; m2['flagged_tie_only_no_failing_input_found'] = tie
+        json.dump(m2, open(meta_path, 'w'), indent=1)
         rows.append((sid, target, (meta.get('summary') or '')[:110].replace('|', '/'), (meta.get('needs') or '')[:90].replace('|', '/'),
-                     'yes' if r.get('target_detected') else 'NO', ','.join(flagged) or '-'))
+                     'yes' if r.get('target_detected') else 'NO', (','.join(conc) or '-') + ((' ; tie only: ' + ','.join(tie)) if tie else '')))
     print('| seeded | summary | needs | caught by its check | all checks that flag it |')
     print('|---|---|---|---|---|')
     for sid, target, summ, needs, det, fl in rows:
